@@ -541,8 +541,10 @@ def run_property(pid, tier, replay=None):
         'wall_s': round(time.time() - t0, 2),
         'violations': nviol,
     }
-    os.makedirs(os.path.join(VERIF, 'evidence'), exist_ok=True)
-    with open(os.path.join(VERIF, 'evidence', '%s.json' % pid), 'w') as f:
+    # evidence/ describes /repo only: a run pointed at another tree (seeded-change evaluation) writes under work/
+    evdir = os.path.join(VERIF, 'evidence') if os.path.realpath(REPO) == '/repo' else os.path.join(WORK, 'evidence_other_tree')
+    os.makedirs(evdir, exist_ok=True)
+    with open(os.path.join(evdir, '%s.json' % pid), 'w') as f:
         json.dump(jsonable(ev), f, indent=1)
     for l in lines:
         print(l)
